@@ -198,3 +198,42 @@ func verifH_C07_client() {
 	}
 	verifReach("end")
 }
+
+// C07_client_race: a message sent from another goroutine exactly while the client swaps transports (real
+// finishUpgradeTo vs real Send, all interleavings at synchronisation points): it is sent exactly once - on the old
+// transport before the swap or on the new one after it - and nothing precedes the UPGRADE packet on the new transport
+// (the server would take any other first packet for a failed probe and close the candidate).
+//
+//verif:unwind 40
+//verif:preempt 2
+//verif:sleep gate
+func verifH_C07_client_race() {
+	old := &verifRecClient{name: "polling"}
+	cand := &verifRecClient{name: "websocket"}
+	s := &clientSocket{
+		transport: old, upgradeTimeout: time.Second, debug: NewNoopDebugger(),
+		pingChan: make(chan struct{}, 1), closeChan: make(chan struct{}),
+		upgradeDone: func(string) {},
+	}
+	s.callbacks.setMissing()
+	c := transport.NewCallbacks()
+	verifThreads(true)
+	verifGo(func() { s.finishUpgradeTo(cand, c) })
+	verifGo(func() { s.Send(verifNumbered('7')) })
+	verifWaitQuiescent()
+	n := 0
+	for _, b := range old.batches {
+		n += verifCountNumbered(b, '7')
+	}
+	firstOnNew := parser.PacketTypeUpgrade
+	for i, b := range cand.batches {
+		n += verifCountNumbered(b, '7')
+		if i == 0 && len(b) > 0 {
+			firstOnNew = b[0].Type
+		}
+	}
+	verifAssert(n == 1, "a message sent while the transports are swapped is sent exactly once")
+	verifAssert(len(cand.batches) >= 1 && firstOnNew == parser.PacketTypeUpgrade, "UPGRADE is the first packet on the new transport, whatever else is being sent")
+	verifAssert(verifHeldLocks() == 0, "no mutex left held")
+	verifReach("end")
+}
